@@ -35,6 +35,7 @@ pub fn rule_name(r: Rule) -> &'static str {
         Rule::Hold => "hold",
         Rule::Cancel => "cancel",
         Rule::Attach => "attach",
+        Rule::AttachOrder => "attach-order",
         Rule::State => "state",
         Rule::Ctx => "ctx",
         Rule::Lazy => "lazy",
@@ -56,6 +57,7 @@ pub fn rule_of(s: &str) -> Rule {
         Rule::Hold,
         Rule::Cancel,
         Rule::Attach,
+        Rule::AttachOrder,
         Rule::State,
         Rule::Ctx,
         Rule::Lazy,
@@ -237,3 +239,29 @@ pub fn warm(names: &[&str]) -> Vec<String> {
 pub const ALL_SCENARIOS: &[&str] = &[
     "S1", "S2", "S3", "S3b", "S4", "S5", "S5b", "S7", "S8", "S19", "S19r", "S20", "S11", "S12", "S13", "S14", "S15", "S17",
 ];
+
+/// Attachments with boundary strings through every route (C06's input quantifier).
+pub fn string_programs() -> Vec<Program> {
+    let big = "x".repeat(1024);
+    let strings: Vec<(&str, &str)> = vec![("", ""), ("k", "v"), ("k", "v2"), ("\u{e9}", "\u{e9}\u{e9}"), ("\u{1F600}", "\u{10FFFF}"), ("big", &big)];
+    let mut out = Vec::new();
+    for (i, (k, v)) in strings.iter().enumerate() {
+        let kv = || vec![(k.to_string(), v.to_string()), ("k".to_string(), format!("dup{i}"))];
+        let ops = vec![
+            Op::Root { slot: 0, name: format!("r{k}"), trace: U128(0x66), remote_parent: 0, sampled: true, props: kv() },
+            Op::AddProps { slot: 0, props: kv() },
+            Op::AddEvent { slot: 0, name: format!("ev{v}"), props: kv() },
+            scope(0),
+            Op::LocalEnter { name: format!("l{k}"), props: kv() },
+            Op::LocalAddProps { props: kv() },
+            Op::LocalAddEvent { name: format!("le{v}"), props: kv() },
+            pop(),
+            Op::LocalAddProps { props: kv() },
+            Op::LocalAddEvent { name: format!("le2{v}"), props: kv() },
+            pop(),
+            finish(0),
+        ];
+        out.push(Program::new(format!("C06-strings#{i}")).worker("A", ops));
+    }
+    out
+}
